@@ -122,11 +122,9 @@ Definition topic_refs (e : element) : list ref :=
 
 Section Contract.
 Variables snake camel screaming : str -> str.
-(* [lenient = false]: the contract as the property text has it.  [lenient = true]: the same
-   contract with the enum clause waived for enums whose FIRST option ends in UNSPECIFIED under
-   a name of its own (the compiler takes that option as the zero value: known finding,
-   C02_named_zero_refuted); nothing else differs. *)
-Variable lenient : bool.
+(* the contract as the property text has it (before fix a65e1f2 it carried a switch [lenient]
+   that waived the enum clause for enums whose first option ends in UNSPECIFIED under a name of
+   its own: the compiler took that option as the zero value) *)
 
 (* README "Inline Types": the inline type takes the name of the field (CamelCase) unless the
    name is overridden *)
@@ -152,7 +150,7 @@ Definition field_decl_ok (inoneof : bool) (num : N) (p : property) (df : dfield)
   f_label df = (if is_repeated (prop_field p) then LRepeated else LOptional) /\
   (* optionality: proto3_optional exactly for the properties declared optional; cardinality
      "repeated" has no presence, so an optional array / map is a plain repeated field *)
-  f_opt3 df = (prop_optional p && negb (is_repeated (prop_field p))) /\
+  f_opt3 df = (prop_optional p && negb (is_repeated (prop_field p)) && negb inoneof) /\
   f_oneof df = inoneof.
 
 (* the fields of a message are exactly the declared properties, in order, numbered from
@@ -176,33 +174,12 @@ Definition strict_opts (name : str) (e : enum) : list str :=
   | o :: r => if zero_spelled (enum_pfx name e) o then r else o :: r
   | [] => []
   end.
-(* the first option ends in UNSPECIFIED without spelling the zero value (OLD_UNSPECIFIED) *)
-Definition named_zero (name : str) (e : enum) : bool :=
-  match e_opts e with
-  | o :: _ => has_suffix (b "UNSPECIFIED") o && negb (zero_spelled (enum_pfx name e) o)
-  | [] => false
-  end.
 Definition enum_ok (name : str) (e : enum) (de : denum) : Prop :=
   en_name de = name /\
-  ((lenient = true -> named_zero name e = false) ->
-   nth_error (en_vals de) 0 = Some (enum_pfx name e ++ b "UNSPECIFIED", 0) /\
-   length (en_vals de) = S (length (strict_opts name e)) /\
-   forall i o, nth_error (strict_opts name e) i = Some o ->
-     nth_error (en_vals de) (S i) = Some (opt_value_name (enum_pfx name e) o, N.of_nat (S i))).
-
-(* what the compiler does (any first option ending in UNSPECIFIED is the zero value): used for
-   the linker's symbol table only (J5sSymbols), not by the contract *)
-Definition declared_opts (e : enum) : list str :=
-  match e_opts e with
-  | o :: r => if has_suffix (b "UNSPECIFIED") o then r else o :: r
-  | [] => []
-  end.
-Definition zero_value_name (name : str) (e : enum) : str :=
-  match e_opts e with
-  | o :: _ => if has_suffix (b "UNSPECIFIED") o then opt_value_name (enum_pfx name e) o
-              else enum_pfx name e ++ b "UNSPECIFIED"
-  | [] => enum_pfx name e ++ b "UNSPECIFIED"
-  end.
+  nth_error (en_vals de) 0 = Some (enum_pfx name e ++ b "UNSPECIFIED", 0) /\
+  length (en_vals de) = S (length (strict_opts name e)) /\
+  forall i o, nth_error (strict_opts name e) i = Some o ->
+    nth_error (en_vals de) (S i) = Some (opt_value_name (enum_pfx name e) o, N.of_nat (S i)).
 
 (* the names of the nested messages / enums a list of properties gives rise to, in order:
    nothing else may be nested (exactness) *)
